@@ -44,11 +44,45 @@ Section Universe.
     if so_err o =? err_none then (if valid t' then (o, t') else (obs_err err_constraint, t))
     else (o, t).
 
-  (* doCommit with validateWorkingSetForCommit: new persisted state and error class *)
+  (* merge/merge_prolly_rows.go uniqValidator.validateDiff, as it is: the diffs are visited in
+     primary-key order against a copy of the LEFT (persisted) unique index that only grows —
+     insertRow adds the entry of a merged row, the old entry of a modified row is never
+     removed, only a right-side DELETE removes its entry (removeRow).  A right add / modify
+     whose non-NULL value has an entry under another primary key is recorded as a unique
+     violation.  Consequence (observed on the engine, seed 2 of the generator): a transaction
+     that moves a unique value from one row to another (row 3: a 0 -> 1, new row 1: a = 0) is
+     refused with a constraint-violation error although the merged table is valid.
+     E = entries (a, pk); l = persisted table; m = merged table. *)
+  Definition collide (E : list (cell * N)) (a : cell) (k : N) : bool :=
+    match a with
+    | None => false
+    | Some _ => existsb (fun e => cell_eqb (fst e) a && negb (snd e =? k)) E
+    end.
+
+  Fixpoint uscan (keys : list N) (l m : table) (E : list (cell * N)) : bool :=
+    match keys with
+    | [] => false
+    | k :: ks =>
+      if orow_eqb (get U l k) (get U m k) then uscan ks l m E          (* no right edit at k *)
+      else match get U m k with
+           | None =>                                                   (* DiffOpRightDelete *)
+             uscan ks l m (filter (fun e => negb (snd e =? k)) E)
+           | Some r =>                                                 (* RightAdd / RightModify / DivergentModifyResolved *)
+             collide E (fst r) k || uscan ks l m ((fst r, k) :: E)
+           end
+    end.
+
+  Definition entries_of (t : table) : list (cell * N) :=
+    flat_map (fun k => match get U t k with Some r => [(fst r, k)] | None => [] end) U.
+
+  (* doCommit with validateWorkingSetForCommit: new persisted state and error class.
+     The whole merged table is re-validated as well ([valid m]): for uniqueness this is
+     implied by [uscan] finding nothing (not proved here), for CHECK it is checkValidator. *)
   Definition commit_c (h s w : table) : table * N :=
     if table_eqb U h s then (w, err_none)
     else let '(m, c) := merge_tables U s h w in
          if c then (h, err_retry)
+         else if uscan U h m (entries_of h) then (h, err_constraint)
          else if valid m then (m, err_none)
          else (h, err_constraint).
 
